@@ -48,6 +48,9 @@ def read(path=None):
         sym = sym.strip()
         assert pat[0] == "`" and pat[-1] == "`", line
         pat = pat[1:-1].replace("\\|", "|")
+        if pat == "||":
+            # the generator does not double-escape: the markdown cell `\|\|` is the regex-escaped literal "||"
+            pat = r"\|\|"
         if sym.startswith("`"):
             sym = sym[1:-1]
         else:
